@@ -498,3 +498,65 @@ func ruleQueueCtor(c *Ctx, r *Reporter) {
 		r.anchorMissing("reconciler.(retryPrioQueue).Pop")
 	}
 }
+
+func init() {
+	register(&Rule{
+		ID: "ENC-FRESH", Props: []string{"C18"}, Floor: 30,
+		Doc: "the key encoders build their result in memory of their own: no store, append (including binary.AppendUintNN), copy or in-place helper in an encoder writes through a slice it was given - otherwise two keys encoded from one buffer overwrite each other and decode(encode(x)) != x",
+		Run: ruleEncFresh,
+	})
+}
+
+func ruleEncFresh(c *Ctx, r *Reporter) {
+	im := c.immutEngine()
+	isEncoder := func(fn *ssa.Function) bool {
+		if fn.Package() == nil || fn.Parent() != nil || fn.Object() == nil {
+			return false
+		}
+		pk := shortPkg(fn.Package().Pkg.Path())
+		switch {
+		case pk == "index" && fn.Object().Exported():
+			// every exported function of package index that returns a Key/KeySet
+			res := fn.Signature.Results()
+			for i := 0; i < res.Len(); i++ {
+				if n := namedTypeName(res.At(i).Type()); n == "Key" || n == "KeySet" {
+					return true
+				}
+			}
+		case pk == "lpm" && (fn.Name() == "EncodeLPMKey" || fn.Name() == "NetIPPrefixToIndexKey"):
+			return true
+		case pk == "statedb" && (fn.Name() == "encodeNonUniqueKey" || fn.Name() == "encodeNonUniqueBytes"):
+			return true
+		}
+		return false
+	}
+	byFn := map[*ssa.Function][]*writeSite{}
+	for _, w := range im.sites {
+		byFn[w.fn] = append(byFn[w.fn], w)
+	}
+	n := 0
+	for _, fn := range c.Funcs {
+		if !isEncoder(fn) {
+			continue
+		}
+		n++
+		var bad *writeSite
+		for _, w := range byFn[fn] {
+			if strings.HasPrefix(w.kind, "call:") {
+				continue
+			}
+			if len(w.c.params) > 0 && bad == nil {
+				bad = w
+			}
+		}
+		key := c.fnName(fn) + "|does not write through its input"
+		if bad == nil {
+			r.ok(key, c.posStr(fn.Pos()), fmt.Sprintf("%d writes, all into memory allocated by the encoder", len(byFn[fn])))
+		} else {
+			r.bad(key, c.posStr(instrPos(bad.in)), "the encoder writes ("+bad.kind+") through memory it was handed by its caller: encoding a second key from the same buffer overwrites the first, and the caller's data is modified")
+		}
+	}
+	if n < 3 {
+		r.undecided("encoders", "-", fmt.Sprintf("expected at least 3 key encoders, found %d", n))
+	}
+}
